@@ -59,10 +59,14 @@ structure Flags where
   /-- verification_thread.rs:45 — `verify_tx` itself drops a peer transaction of type Fee/SPV/ATR/Issuance (a tree may
       refuse these only at the pool, `poolRejectsPrivilegedTypes`, and still forward them from the verification thread) -/
   verifyDropsPrivilegedTypes : Bool := false
+  /-- block.rs:2691-2704 — a block validated by a full node may not contain `SPV`-typed transactions, whatever their
+      replacement count (the merkle leaf of such a placeholder is a field its sender chooses, not a hash of its content;
+      pinned: no such rule) -/
+  fullBlockNoSpv : Bool := false
   deriving Repr, DecidableEq
 
 def Flags.pinned : Flags := {}
-def Flags.fixed : Flags := ⟨true, true, true, true, true, true, true, true, true, true, true⟩
+def Flags.fixed : Flags := ⟨true, true, true, true, true, true, true, true, true, true, true, true⟩
 
 inductive TxType where
   | normal | fee | goldenTicket | atr | vip | spv | issuance | blockStake | bound
@@ -276,6 +280,7 @@ def blockValidate (fl : Flags) (bc : BCtx) (u : List Nat) (txs : List Tx) : Bool
   && !(bc.cx.ssr != 0 && (txs.filter (isType .blockStake)).length != 1 && bc.id > 1)
   && !(bc.cx.vau && !bc.atrOk)
   && (!fl.merkleAlwaysCompared || bc.rootMatches)
+  && !(fl.fullBlockNoSpv && txs.any (isType .spv))
   && feeRule fl bc txs
   && blockSweep fl bc.cx u txs
 
